@@ -194,17 +194,25 @@ Proof.
 Qed.
 Lemma release_pointwise1 bs g j : length bs = length g -> (j < length bs)%nat -> nth j (release1 O bs g) 0 = nth j bs 0 \/ nth j (release1 O bs g) 0 = 0.
 Proof. intros H1 Hj. unfold release1. rewrite (nth_map2 _ bs g j 0 d0 0) by lia. destruct (releasable _ _ _); [right|left]; reflexivity. Qed.
-Lemma in_play_spec s additive bs nbound g h ds damping bs' ifree gn : length bs = length g ->
-  in_play s additive bs nbound g h ds damping = (bs', ifree, gn) ->
+Lemma in_play_spec s additive held bs nbound g h ds damping bs' ifree gn : length bs = length g ->
+  in_play s additive held bs nbound g h ds damping = (bs', ifree, gn) ->
   ifree = find (fun b => b =? 0) bs' /\ gn = gnorm_free ifree g /\ (oleb O gn (thr s) = true -> can_release O bs' g = false)
   /\ length bs' = length bs /\ (forall j, (j < length bs)%nat -> nth j bs' 0 = nth j bs 0 \/ nth j bs' 0 = 0).
 Proof.
   intros Hlen. unfold Minim.in_play.
   set (bs1 := if 0 <? nbound then _ else bs).
   assert (L1 : length bs1 = length bs).
-  { unfold bs1. destruct (0 <? nbound); [|reflexivity]. unfold release2. rewrite map3_length; [reflexivity|exact Hlen|]. unfold vneg. rewrite map_length, solve_len. reflexivity. }
+  { unfold bs1. destruct (0 <? nbound); [|reflexivity].
+    assert (Lr : forall dx, length dx = length g -> length (release2 O bs g dx) = length bs) by (intros dx Hdx; unfold release2; rewrite map3_length; [reflexivity|exact Hlen|lia]).
+    destruct held; [rewrite set_nth_length|]; apply Lr; unfold vneg; rewrite map_length, solve_len; reflexivity. }
   assert (P1 : forall j, (j < length bs)%nat -> nth j bs1 0 = nth j bs 0 \/ nth j bs1 0 = 0).
-  { intros j Hj. unfold bs1. destruct (0 <? nbound); [|left; reflexivity]. apply release_pointwise2; [exact Hlen| |exact Hj]. unfold vneg. rewrite map_length, solve_len. reflexivity. }
+  { intros j Hj. unfold bs1. destruct (0 <? nbound); [|left; reflexivity].
+    assert (Hdx : length g = length (vneg O (solve (if additive then map_diag O (fun v => oadd O v (omul O damping ds)) h else map_diag O (fun v => omul O v (oadd O (o1 O) damping)) h) g)))
+      by (unfold vneg; rewrite map_length, solve_len; reflexivity).
+    destruct held as [i|]; [|apply release_pointwise2; [exact Hlen|exact Hdx|exact Hj]].
+    destruct (Nat.eq_dec i j) as [->|Hne].
+    - left. apply nth_set_nth_eq. unfold release2. rewrite map3_length; [exact Hj|exact Hlen|exact Hdx].
+    - rewrite nth_set_nth_neq by exact Hne. apply release_pointwise2; [exact Hlen|exact Hdx|exact Hj]. }
   destruct ((0 <? count_bound bs1) && oleb O (gnorm_free (find (fun b => b =? 0) bs1) g) (thr s) && can_release O bs1 g) eqn:Hc; intros E; inversion E; subst; clear E.
   - refine (conj eq_refl (conj eq_refl (conj (fun _ => can_release_release1 bs1 g) (conj _ _)))).
     + unfold release1. rewrite map2_length by lia. exact L1.
@@ -290,11 +298,11 @@ Proof.
   - intros E1. specialize (Hsound E1). unfold sound in *; cbn in *. exact Hsound.
 Qed.
 
-Lemma lmb_outer_spec fo : forall fi s additive lo hi x bs nbound damping it samples start_cost gn log,
+Lemma lmb_outer_spec fo : forall fi s additive lo hi x held bs nbound damping it samples start_cost gn log,
   box_ok lo hi -> within lo hi x -> pinned_ok lo hi x bs -> 0 <= it -> (it <> 0 -> oleb O (cost x) start_cost = true) ->
-  outer_post s lo hi it log (lmb_outer fo fi s additive lo hi x bs nbound damping it samples start_cost gn log).
+  outer_post s lo hi it log (lmb_outer fo fi s additive lo hi x held bs nbound damping it samples start_cost gn log).
 Proof.
-  induction fo as [|fo IH]; intros fi s additive lo hi x bs nbound damping it samples start_cost gn log Hbox W P Hit Hstart.
+  induction fo as [|fo IH]; intros fi s additive lo hi x held bs nbound damping it samples start_cost gn log Hbox W P Hit Hstart.
   - cbn. unfold outer_post; cbn. refine (conj _ (conj W (conj _ (conj _ (conj (Z.le_refl _) (fun H => Z.lt_le_incl _ _ H)))))).
     + exists []. split; [rewrite app_nil_r; reflexivity|constructor].
     + intros H; contradiction H; reflexivity.
@@ -307,9 +315,9 @@ Proof.
     { apply (stop_post s lo hi it log x MInvalidCost gn bs _ 2 start1 _ [EvCostGradHess x]); try assumption; try reflexivity. discriminate. }
     destruct (existsb (fun v => negb (isfinite v)) (grad x)).
     { apply (stop_post s lo hi it log x MInvalidGradient gn bs _ 2 start1 _ [EvCostGradHess x]); try assumption; try reflexivity. discriminate. }
-    destruct (in_play s additive bs nbound (grad x) (hess x) (mean O ofnat (diag O (hess x))) damping) as [[bs1 ifree] gn1] eqn:Hip.
+    destruct (in_play s additive held bs nbound (grad x) (hess x) (mean O ofnat (diag O (hess x))) damping) as [[bs1 ifree] gn1] eqn:Hip.
     assert (Lbs : length bs = length (grad x)) by (destruct P as [Pl _]; rewrite grad_len; exact Pl).
-    destruct (in_play_spec _ _ _ _ _ _ _ _ _ _ _ Lbs Hip) as (Hifree & Hgn & Hcan & Lbs1 & Hpt).
+    destruct (in_play_spec _ _ _ _ _ _ _ _ _ _ _ _ Lbs Hip) as (Hifree & Hgn & Hcan & Lbs1 & Hpt).
     assert (P1 : pinned_ok lo hi x bs1) by (apply (pinned_release lo hi x bs bs1); assumption).
     assert (Wx2 : log_ok lo hi [EvCostGradHess x; EvProgress it x (cost x) gn1]) by (constructor; [exact W|constructor; [exact W|constructor]]).
     destruct (oleb O gn1 (thr s)) eqn:Hconv.
@@ -332,7 +340,7 @@ Proof.
         -- lia.
         -- intros; lia.
       * unfold zge in Hmax. apply Z.leb_gt in Hmax.
-        assert (Hrec := IH fi s additive lo hi nx (flag_at_bounds O lo hi nx (if bt =? 0 then bs1 else set_nth (nth ib ifree 0%nat) bt bs1)) (count_bound bs1) (lower_damping O s d) (it + 1) smp start1 gn1 lg
+        assert (Hrec := IH fi s additive lo hi nx (if bt =? 0 then None else Some (nth ib ifree 0%nat)) (flag_at_bounds O lo hi nx (if bt =? 0 then bs1 else set_nth (nth ib ifree 0%nat) bt bs1)) (count_bound bs1) (lower_damping O s d) (it + 1) smp start1 gn1 lg
                   Hbox Wn (pinned_accept lo hi x bs1 ifree nx bt ib Hbox W Wn P1 Hifree Hsnap Hkeep) ltac:(lia) (fun _ => Hn1)).
         destruct Hrec as ([l' [Hl1 Hl2]] & R2 & R3 & R4 & R5 & R6).
         unfold outer_post. refine (conj _ (conj R2 (conj R3 (conj R4 (conj _ _))))).
@@ -361,28 +369,28 @@ Proof.
   destruct (raise_damping O s damping); [apply IH|]. intros E. inversion E. destruct (negb _); [left|right]; reflexivity.
 Qed.
 (* the reported starting cost is the cost at the first state evaluated; with enough outer fuel the outer loop never runs out *)
-Lemma lmb_outer_start fo : forall fi s additive lo hi x bs nbound damping it samples start_cost gn log, 0 <= it ->
-  r_start_cost (lmb_outer fo fi s additive lo hi x bs nbound damping it samples start_cost gn log) = match fo with 0%nat => start_cost | S _ => if it =? 0 then cost x else start_cost end.
+Lemma lmb_outer_start fo : forall fi s additive lo hi x held bs nbound damping it samples start_cost gn log, 0 <= it ->
+  r_start_cost (lmb_outer fo fi s additive lo hi x held bs nbound damping it samples start_cost gn log) = match fo with 0%nat => start_cost | S _ => if it =? 0 then cost x else start_cost end.
 Proof.
-  induction fo as [|fo IH]; intros fi s additive lo hi x bs nbound damping it samples start_cost gn log Hit; [reflexivity|].
+  induction fo as [|fo IH]; intros fi s additive lo hi x held bs nbound damping it samples start_cost gn log Hit; [reflexivity|].
   cbn [Minim.lmb_outer]. set (start1 := if it =? 0 then cost x else start_cost).
   destruct (negb (isfinite (cost x))); [destruct (Minim.refresh _ _ _ _ _ _); reflexivity|].
   destruct (existsb _ (grad x)); [destruct (Minim.refresh _ _ _ _ _ _); reflexivity|].
-  destruct (in_play _ _ _ _ _ _ _ _) as [[bs1 ifree] gn1].
+  destruct (in_play _ _ _ _ _ _ _ _ _) as [[bs1 ifree] gn1].
   destruct (oleb O gn1 (thr s)); [destruct (Minim.refresh _ _ _ _ _ _); reflexivity|].
   destruct (lmb_inner _ _ _ _ _ _ _ _ _ _ _ _ _ _ _ _) as [nx nc d smp bt ib lg|st d smp lg|]; [|destruct (Minim.refresh _ _ _ _ _ _); reflexivity|reflexivity].
   destruct (zge (it + 1) (max_it s)); [destruct (Minim.refresh _ _ _ _ _ _); reflexivity|].
   rewrite IH by lia. destruct fo; [reflexivity|]. destruct (Z.eqb_spec (it + 1) 0); [lia|reflexivity].
 Qed.
-Lemma lmb_outer_fuel fo : forall fi s additive lo hi x bs nbound damping it samples start_cost gn log,
+Lemma lmb_outer_fuel fo : forall fi s additive lo hi x held bs nbound damping it samples start_cost gn log,
   0 <= it -> it < max_it s -> (Z.to_nat (max_it s - it) <= fo)%nat -> 
-  r_status (lmb_outer fo fi s additive lo hi x bs nbound damping it samples start_cost gn log) <> MOutOfFuel.
+  r_status (lmb_outer fo fi s additive lo hi x held bs nbound damping it samples start_cost gn log) <> MOutOfFuel.
 Proof.
-  induction fo as [|fo IH]; intros fi s additive lo hi x bs nbound damping it samples start_cost gn log Hit Hmax Hfuel; [lia|].
+  induction fo as [|fo IH]; intros fi s additive lo hi x held bs nbound damping it samples start_cost gn log Hit Hmax Hfuel; [lia|].
   cbn [Minim.lmb_outer].
   destruct (negb (isfinite (cost x))); [destruct (Minim.refresh _ _ _ _ _ _); discriminate|].
   destruct (existsb _ (grad x)); [destruct (Minim.refresh _ _ _ _ _ _); discriminate|].
-  destruct (in_play _ _ _ _ _ _ _ _) as [[bs1 ifree] gn1].
+  destruct (in_play _ _ _ _ _ _ _ _ _) as [[bs1 ifree] gn1].
   destruct (oleb O gn1 (thr s)); [destruct (Minim.refresh _ _ _ _ _ _); discriminate|].
   destruct (lmb_inner _ _ _ _ _ _ _ _ _ _ _ _ _ _ _ _) as [nx nc d smp bt ib lg|st d smp lg|] eqn:Ein; [| |discriminate].
   - destruct (zge (it + 1) (max_it s)) eqn:Hz; [destruct (Minim.refresh _ _ _ _ _ _); discriminate|].
